@@ -470,6 +470,10 @@ func (p *Parser) parseDict() (core.Object, error) {
 		}
 
 		// Parse key (must be a name)
+		if p.pos >= len(p.data) {
+			return nil, fmt.Errorf("unclosed dictionary")
+		}
+
 		if p.data[p.pos] != '/' {
 			return nil, fmt.Errorf("dictionary key must be a name")
 		}
